@@ -286,6 +286,9 @@ class Writer(BaseValidator):
         assert target is not None
 
         super().__init__(cid_or_path)
+        # Forget what the checks have learned during possible earlier reads or writes using the same CID.
+        for check in self.cid.check_map.values():
+            check.reset()
 
         data_format = cid_or_path.data_format
         assert self.cid.data_format.is_valid
